@@ -1,6 +1,7 @@
 (* C12 — Reforming calendars exist for exactly the documented reformation days. *)
 From JV Require Import Sem Gen Spec SpecX.
 From JV.Proofs Require Import SpecFacts Cal Core Reform Boundary.
+Require JV.Proofs.Glue_C12_core.
 Open Scope Z_scope.
 
 (* reforming_spec (Reform.v): InvalidReformation below 1830692, Arithmetic above 2147439588, otherwise
@@ -12,12 +13,7 @@ Theorem C12_spec_meaning : forall r,
   (r < 1830692 -> reforming_spec r = Err ReformingError_InvalidReformation) /\
   (2147439588 < r -> reforming_spec r = Err ReformingError_Arithmetic) /\
   (ValidR r -> reforming_spec r = Ok (cal_of (CR r))).
-Proof.
-  intros r. unfold reforming_spec, ValidR. repeat split; intros H.
-  - replace (r <? 1830692) with true by lia. reflexivity.
-  - replace (r <? 1830692) with false by lia. replace (2147439588 <? r) with true by lia. reflexivity.
-  - replace (r <? 1830692) with false by lia. replace (2147439588 <? r) with false by lia. reflexivity.
-Qed.
+Proof. exact JV.Proofs.Glue_C12_core.C12_spec_meaning_lemma. Qed.
 Print Assumptions C12_spec_meaning.
 
 Theorem C12_observers : forall c,
@@ -29,7 +25,7 @@ Print Assumptions C12_observers.
 
 (* the built-in 1582 calendar is, as a record (private gap included), the one constructed for day 2299161 *)
 Theorem C12_reform1582_literal : Calendar_reforming REFORM1582_JDN = Ret (Ok Calendar_REFORM1582) /\ Calendar_REFORM1582 = cal_of (CR 2299161).
-Proof. split; vm_compute; reflexivity. Qed.
+Proof. exact JV.Proofs.Glue_C12_core.C12_reform1582_literal_lemma. Qed.
 Print Assumptions C12_reform1582_literal.
 
 (* every per-country constant is an accepted reformation day *)
@@ -38,7 +34,7 @@ Theorem C12_ncal_valid :
     ncal_CZECH_REPUBLIC; ncal_GERMANY; ncal_DENMARK; ncal_SPAIN; ncal_FINLAND; ncal_FRANCE; ncal_UNITED_KINGDOM; ncal_GREECE;
     ncal_HUNGARY; ncal_ICELAND; ncal_ITALY; ncal_JAPAN; ncal_LITHUANIA; ncal_LUXEMBOURG; ncal_LATVIA; ncal_NETHERLANDS; ncal_NORWAY;
     ncal_POLAND; ncal_PORTUGAL; ncal_ROMANIA; ncal_RUSSIA; ncal_SLOVENIA; ncal_SWEDEN; ncal_TURKEY; ncal_UNITED_STATES; ncal_YUGOSLAVIA].
-Proof. repeat constructor; cbv; discriminate. Qed.
+Proof. exact JV.Proofs.Glue_C12_core.C12_ncal_valid_lemma. Qed.
 Print Assumptions C12_ncal_valid.
 
 (* months are wholly skipped only from 3145930 on, whole years only from 19582149 on (and they are, there) *)
